@@ -104,6 +104,12 @@ Proof. exact bhrz03_collect_sorted. Qed.
 
 (* ---- (2) from the per-step check to all chains ---- *)
 
+(* For ANY domain, operator and certificate: if the certificate is a function of the value and every
+   value-changing step  (a <= b, (b widen a) <> a)  strictly decreases it in a well-founded order, then on every
+   sequence y the iteration is eventually stationary.  Axiom-free: value equality is decided (the oracle decides
+   it) and the statement takes the one omniscience instance it needs as a hypothesis ("from k on, every step is
+   stationary or some step is not").  With excluded middle both hypotheses vanish: that corollary is
+   Generic.certified_widening_terminates_classic (uses Coq.Logic.Classical_Prop.classic, hence not listed here). *)
 Theorem certified_widening_terminates :
   forall (D Pt : Type) (den : D -> Pt -> Prop) (widen join : D -> D -> D),
     (forall a b, le D Pt den a (join a b)) ->
@@ -111,10 +117,13 @@ Theorem certified_widening_terminates :
     well_founded clt ->
     (forall a b, deq D Pt den a b -> cert a = cert b) ->
     (forall a b, le D Pt den a b -> ~ deq D Pt den (widen b a) a -> clt (cert (widen b a)) (cert a)) ->
+    (forall a b, deq D Pt den a b \/ ~ deq D Pt den a b) ->
+    (forall k, (forall m, k <= m -> deq D Pt den (it D widen join y (S m)) (it D widen join y m)) \/
+               (exists m, k <= m /\ ~ deq D Pt den (it D widen join y (S m)) (it D widen join y m))) ->
   exists n, forall m, n <= m -> deq D Pt den (it D widen join y m) (it D widen join y n).
-Proof. exact certified_widening_terminates_classic. Qed.
+Proof. exact certified_widening_terminates_lpo. Qed.
 
-(* the same without any axiom, given that value equality is decided (the oracle decides it) *)
+(* without the omniscience hypothesis: it is impossible that the iteration never becomes stationary *)
 Theorem certified_widening_terminates_constructive :
   forall (D Pt : Type) (den : D -> Pt -> Prop) (widen join : D -> D -> D),
     (forall a b, le D Pt den a (join a b)) ->
